@@ -641,6 +641,31 @@ theorem C03_hs_unprepared_other_id (cfg : Config) (au : Authn) (z : Bool) (curKs
   have hf : specForget known (curKs, stmt) uid = known := by simp [specForget, hk, hne]
   simp [specRun, specStep, hf, specExec, hk]
 
+open Handshake in
+/-- **C03_hs_execute_from_plan.** For every configuration, authenticator, plan and EVERY peer script: an
+    EXECUTE that is due is the execution of an `exec` action of the plan — its consistency, its values
+    (null / bytes as given, positional, in order), skip-metadata as configured, the per-request keyspace
+    of the version, nothing else set, no custom payload; however often the statement was executed
+    before and however many UNPREPARED rounds were needed. -/
+theorem C03_hs_execute_from_plan (cfg : Config) (au : Authn) (answers : List PeerAnswer) (id : Bytes) (p : QParams)
+    (pl : Payload) (z : Bool) (h : (Req.execute id p pl, z) ∈ specReqs cfg au answers) :
+    ∃ stmt cons vals curKs, Action.exec stmt cons vals ∈ cfg.plan ∧
+      Req.execute id p pl = specExecute cfg curKs id cons vals := by
+  simp only [specReqs, List.mem_cons] at h
+  rcases h with h | h
+  · cases h
+  · exact specRun_plan cfg au answers .options (fromPlan_nil _) _ h
+
+open Handshake in
+/-- every PREPARE that is due carries the statement text of an `exec` action of the plan, unchanged -/
+theorem C03_hs_prepare_from_plan (cfg : Config) (au : Authn) (answers : List PeerAnswer) (stmt : Bytes) (ks : Option Bytes)
+    (pl : Payload) (z : Bool) (h : (Req.prepare stmt ks pl, z) ∈ specReqs cfg au answers) :
+    ∃ cons vals curKs, Action.exec stmt cons vals ∈ cfg.plan ∧ Req.prepare stmt ks pl = specPrepare cfg.v curKs stmt := by
+  simp only [specReqs, List.mem_cons] at h
+  rcases h with h | h
+  · cases h
+  · exact specRun_plan cfg au answers .options (fromPlan_nil _) _ h
+
 /-! ## non-vacuity -/
 
 /-- a v4 EXECUTE with named values, an unset value, page size, paging state, serial consistency,
@@ -728,6 +753,9 @@ example : (GReq.execute [8, 8] (execParams hsExCfg2 [] 2 [none]) [], false) ∈ 
   decide
 example : ∃ n, PeerAnswer.prepared [8, 8] n ∈ hsExAnswers2 :=
   C03_hs_execute_id_from_peer hsExCfg2 hsExAuth hsExAnswers2 [8, 8] (execParams hsExCfg2 [] 2 [none]) [] false (by decide)
+example : ∃ stmt cons vals curKs, Action.exec stmt cons vals ∈ hsExCfg2.plan ∧
+    Req.execute [8, 8] ⟨2, true, [⟨none, Val.null⟩], none, none, none, none, none⟩ [] = specExecute hsExCfg2 curKs [8, 8] cons vals :=
+  C03_hs_execute_from_plan hsExCfg2 hsExAuth hsExAnswers2 _ _ _ false (by decide)
 end HsExample
 
 end C03
